@@ -47,11 +47,17 @@ def numba_cache_dir() -> Path:
 
 
 def load_known(pid):
+    out = []
     f = ROOT / "known_findings.json"
-    if not f.exists():
-        return []
-    data = json.loads(f.read_text())
-    return [e for e in data.get("findings", []) if e.get("property") == pid]
+    if f.exists():
+        out.extend(e for e in json.loads(f.read_text()).get("findings", []) if e.get("property") == pid)
+    # findings awaiting triage by the maintainer of /verif (one file each, treated as open)
+    for pf in sorted((ROOT / "pending").glob("*.json")) if (ROOT / "pending").exists() else []:
+        e = json.loads(pf.read_text())
+        if e.get("property") == pid and e.get("id") not in {o.get("id") for o in out}:
+            e.setdefault("status", "open")
+            out.append(e)
+    return out
 
 
 def run_check_once(prop, spec):
@@ -307,7 +313,7 @@ def main(argv=None):
     if rc == 2:
         return 2
     if viol_lines:
-        for ln in viol_lines:
+        for ln in dict.fromkeys(viol_lines):
             print(ln)
         return 1
     return 0
